@@ -1,5 +1,6 @@
 import os
 import re
+from io import StringIO
 
 from .. import BuildHook, BuildRuleHandler
 from ... import file_types, path, shell
@@ -45,8 +46,13 @@ def write(env, build_inputs):
     rule_handler.run(build_inputs.edges(), build_inputs, buildfile, env)
     post_rules_hook.run(build_inputs, buildfile, env)
 
+    # Render the whole file before opening the real one, so that an error
+    # while writing a rule (e.g. an illegal newline) can't leave a truncated
+    # build file behind.
+    contents = StringIO()
+    buildfile.write(contents)
     with open(filepath.string(env.base_dirs), 'w') as out:
-        buildfile.write(out)
+        out.write(contents.getvalue())
 
 
 def flags_vars(name, value, buildfile):
